@@ -250,7 +250,8 @@ class DM:
         self.poke_arr[self.iyy, self.ixx] = self.actuators
 
         # self.dx is unused inside apply tf, but :shrug:
-        sfe = apply_transfer_functions(self.poke_arr, None, self.tf, shift=False)
+        # the influence function is centered in its array, fftshift puts the convolution back on the lattice
+        sfe = fft.fftshift(apply_transfer_functions(self.poke_arr, None, self.tf, shift=False))
         if self.needs_rot:
             warped = warp(sfe, self.projx, self.projy)
         else:
@@ -327,5 +328,5 @@ class DM:
             protograd = warp(protograd, self.invprojx, self.invprojy)
 
         # return protograd
-        in_actuator_space = apply_transfer_functions(protograd, None, np.conj(self.tf), shift=False)
+        in_actuator_space = fft.fftshift(apply_transfer_functions(protograd, None, np.conj(self.tf), shift=False))
         return in_actuator_space[self.iyy, self.ixx]
